@@ -2318,6 +2318,10 @@ class AnsiStr(str):
             return False
         return str(self) == str(value)
 
+    def __ne__(self, value) -> bool:
+        ''' != operator - the opposite of == (str.__ne__ would compare the raw string values instead) '''
+        return not self.__eq__(value)
+
     def __hash__(self) -> int:
         ''' Equal AnsiStr objects have equal string values; defining __eq__ alone would make this str unhashable '''
         return str.__hash__(self)
